@@ -160,6 +160,12 @@ def _folder_case(tag, g, inline=None):
             if (c["k"] == "UnaryOperator" and c["op"] == "!" and then is not None and then["k"] == "BreakStmt"):
                 cs.guard = strip(c["c"][0]).get("n")
                 continue
+            # `if (<operand data> == 0) break;`: the folder declines (zero divisor is left to fault at run time); the value it
+            # computes for the remaining operands is unchanged
+            if c["k"] == "BinaryOperator" and c["op"] == "==" and const_value(c["c"][1]) == 0 and then is not None \
+                    and then["k"] == "BreakStmt" and arg_of(strip(c["c"][0])) is not None:
+                cs.notes.append("declines for operand %d == 0" % arg_of(strip(c["c"][0]))[1])
+                continue
             cs.notes.append("unrecognised if at line %d" % st["l"])
             cs.unknown.add("IfStmt")
         elif k == "DoStmt":
